@@ -45,7 +45,7 @@ def showRes : Res → String
 def b01 (b : Bool) : String := if b then "1" else "0"
 
 def showAns : Ans → String
-  | .call out => s!"model={showRes out.res} x={b01 out.exec} b={b01 out.started}"
+  | .call out => s!"model={showRes out.res} x={b01 out.exec} b={b01 (out.started && !out.exec)}"
   | .ok => "model=ok"
   | .done .noop => "model=noop"
   | .done .stored => "model=stored"
